@@ -47,7 +47,11 @@ type siteInfo struct {
 }
 
 func loadSources() {
-	b, err := os.ReadFile(overlayJSON)
+	path := overlayJSON
+	if p := os.Getenv("VERIF_C19_OVERLAY"); p != "" {
+		path = p
+	}
+	b, err := os.ReadFile(path)
 	if err != nil {
 		return
 	}
@@ -92,6 +96,12 @@ func info(site string) siteInfo {
 		return si
 	}
 	si := siteInfo{Func: site}
+	if strings.Contains(site, "/props/c19/") {
+		// the harness's own announcement: the request that does what network.handleGetConfirmsMsg does
+		si = siteInfo{Func: "the caller of GetBlockByHash (as network.handleGetConfirmsMsg)", Expr: "Confirms"}
+		labels[site] = si
+		return si
+	}
 	i := strings.LastIndex(site, ":")
 	if i > 0 {
 		file := site[:i]
